@@ -115,6 +115,13 @@ def t_parent(rt, fut):
 
 
 @asynq_dec()
+def t_flushhelper(rt, kind, n):
+    """Called synchronously from inside a flush body (a flush that needs another service)."""
+    v = yield HItem(rt, kind, "fh%d" % n, ("fh", n))
+    return v
+
+
+@asynq_dec()
 def t_runaway(rt, n):
     if n <= 0:
         return 0
@@ -424,6 +431,9 @@ class HarnessRT(object):
         self.book = None
         self.track_running = True
         self.label = ""
+        self.in_flush_sync = 0
+        self.nested_flush_calls = 0
+        self.fh_counter = itertools.count()
         self.live_ctx = {}
         self.live_na = {}
         self.ctx_faults = prog.get("ctx_faults")
@@ -499,6 +509,20 @@ class HarnessRT(object):
                         self.item_done[prev.inst] = ("exc", d)
                 raise e
             self.item_flush[it.inst] = batch.bid
+            if mode == "nestedsync":
+                # the flush body itself calls asynq code synchronously, which waits on another batch kind
+                self.in_flush_sync += 1
+                self.nested_flush_calls += 1
+                try:
+                    t_flushhelper(self, (it.kind + 1) % max(2, self.prog.get("kinds", 2)), next(self.fh_counter))
+                except BaseException as e:
+                    # the other service failed; this flush body carries on regardless
+                    if isinstance(e, (KeyboardInterrupt, SystemExit, HarnessFault)):
+                        raise
+                    self.emit("nested_call_in_flush_failed", exc_desc(e))
+                finally:
+                    self.in_flush_sync -= 1
+                mode = None
             if mode is None or mode == "spawn":
                 if mode == "spawn":
                     n = HItem(self, it.kind, "spawn", ("spawn", batch.bid, idx))
